@@ -233,4 +233,189 @@ theorem c8_mutual (g0 : G8) : ∀ fuel : Nat,
           exact ⟨fun h => (hw (hxW.1 h)).1, fun h => hw (hxW.1 h.1)⟩
         · exact hxW
 
+/-! ## 13. one event -/
+
+theorem pend_le_inbox (s : Sess) : pend s ≤ s.inbox.length := by unfold pend; split <;> omega
+
+/-- `SendAppMessages` while logged on -/
+theorem pn_flush (g0 : G8) (s : Sess) (hl : s.st.loggedOn = true) : PN g0 s (sendQueued s) := by
+  have hq := sendQueued_spec g0 s
+  cases ho : s.out
+  · rw [ho] at hq
+    simp only [Bool.false_eq_true, if_false] at hq
+    rw [hq.2]; exact PN.refl g0 s
+  · rw [ho] at hq
+    simp only [if_true] at hq
+    have hg : WK g0 s → g8Of g0 (sendQueued s) = g8Of g0 s := by
+      intro hW
+      rw [hq.2.2]
+      unfold WK at hW
+      have hQ := hW.queue ho (Or.inl hl)
+      have hcb : (g8Of g0 s).cb = true := by rw [hW.cb, hl]; rfl
+      apply wr_quiet _ _ hW.ok (by rw [hW.conn]; exact ho)
+      · cases hf : (g8Of g0 s).fresh
+        · rfl
+        · have := (hW.fresh ho hf).1
+          rw [SState.loggedOn_not_logon _ hl] at this; cases this
+      · exact hQ.1
+      · intro x hx hap
+        refine ⟨hW.hs hcb, ?_⟩
+        cases hsl : (g8Of g0 s).sentLogout
+        · rfl
+        · have := hQ.2 hsl x hx
+          rw [hap] at this; cases this
+    have hw : WK g0 s → WK g0 (sendQueued s) := fun hW =>
+      WK_queue hW hq.1 (hg hW) (fun _ _ => by rw [hq.2.1]; exact Q_nil _)
+    exact ⟨hq.1, hw, fun hS => SK_of hS hq.1 (hw hS.1) (by rw [hg hS.1])⟩
+
+/-- the application queues an application message -/
+theorem SK_send (g0 : G8) (s : Sess) (m : OutMsg) (hadm : isAdminKind m.kind = false) (hS : SK g0 s) :
+    SK g0 (match prep s m with
+      | (none, s) => (s, "refused")
+      | (some m, s) => (s.setToSend (s.toSend ++ [m]), "ok")).1 := by
+  obtain ⟨hs, hm⟩ := prep_spec s m
+  generalize prep s m = r at hs hm
+  obtain ⟨o, s'⟩ := r
+  dsimp only at hs hm
+  rcases hm with hm | ⟨m', hm, hk, hf⟩
+  · subst hm; exact hS.sil hs
+  · subst hm
+    dsimp only
+    have hS' := hS.sil hs
+    have h5 : (m'.kind == "5") = false := by
+      rw [hk]
+      cases h : m.kind == "5"
+      · rfl
+      · have : m.kind = "5" := by simpa using h
+        rw [this] at hadm; revert hadm; decide
+    have fr : Fr s' (s'.setToSend (s'.toSend ++ [m'])) := ⟨rfl, rfl, rfl, rfl, rfl⟩
+    have hw : WK g0 (s'.setToSend (s'.toSend ++ [m'])) := by
+      refine WK_queue hS'.1 fr rfl (fun ho hc => ?_)
+      have hQ := hS'.1.queue ho hc
+      have hsl : (g8Of g0 s').sentLogout = false := by
+        apply hS'.2 ho
+        rcases hc with hc | hc
+        · rw [hc]; rfl
+        · rw [hc.1]; simp
+      refine ⟨?_, fun h => by rw [hsl] at h; cases h⟩
+      intro x hx
+      rcases List.mem_append.1 hx with hx | hx
+      · exact hQ.1 x hx
+      · simp only [List.mem_singleton] at hx; subst hx; exact h5
+    exact SK_of hS' fr hw rfl
+
+theorem c8Step_connected (g : G8) :
+    c8Step g .connected = { conn := true, fresh := true, sentLogout := false, handshake := false, cb := g.cb, notified := false,
+                            ok := g.ok && !g.conn && !g.cb } := rfl
+
+/-- a Logon written by `dropAndSend` on an open connection: queue empty, ghost state advanced by that one write -/
+theorem dropAndSend_logon_out (g0 : G8) (s : Sess) (m : OutMsg) (hk : m.kind = "A") (ho : s.out = true) :
+    ∃ m', m'.kind = "A" ∧ Fr s (dropAndSend s m) ∧ (dropAndSend s m).toSend = [] ∧
+      g8Of g0 (dropAndSend s m) = c8o (g8Of g0 s) (.wire m') := by
+  unfold dropAndSend
+  obtain ⟨m', hm, hk', _⟩ := prep_admin s m (by rw [hk]; decide)
+  have hsil := (prep_spec s m).1
+  generalize prep s m = r at hm hsil
+  obtain ⟨o, s'⟩ := r
+  dsimp only at hm hsil
+  subst hm
+  dsimp only
+  have hq := sendQueued_spec g0 (s'.setToSend [m'])
+  have ho' : (s'.setToSend [m']).out = true := by show s'.out = true; rw [hsil.fr.out]; exact ho
+  rw [ho'] at hq
+  simp only [if_true] at hq
+  have frq : Fr s' (s'.setToSend [m']) := ⟨rfl, rfl, rfl, rfl, rfl⟩
+  refine ⟨m', hk'.trans hk, (hsil.fr.trans frq).trans hq.1, hq.2.1, ?_⟩
+  rw [hq.2.2]
+  have : g8Of g0 (s'.setToSend [m']) = g8Of g0 s := hsil.g8 g0
+  rw [this]; rfl
+
+/-- the session a connecting initiator sends its Logon from -/
+def connPre (s : Sess) : Sess :=
+  let s := s.openConn
+  let s := if s.cfg.refreshOnLogon then s.emit .refresh else s
+  if s.cfg.resetOnLogon then s.storeReset else s
+
+theorem connect_already (s : Sess) (h : s.st.connected = true) : connect s = (s, "already") := by
+  unfold connect; simp [h]
+theorem connect_nottime (s : Sess) (h1 : s.st.connected = false) (h2 : s.st.sessionTime = false) :
+    connect s = ((if s.cfg.resetOnDisconnect then dropAndReset s else s), "nottime") := by
+  unfold connect; simp [h1, h2]
+theorem connect_acceptor (s : Sess) (h1 : s.st.connected = false) (h2 : s.st.sessionTime = true) (h3 : s.cfg.initiator = false) :
+    connect s = (s.openConn.setSt .logon, "ok") := by
+  unfold connect
+  have : s.openConn.cfg.initiator = false := h3
+  simp [h1, h2, this]
+theorem connect_initiator (s : Sess) (h1 : s.st.connected = false) (h2 : s.st.sessionTime = true) (h3 : s.cfg.initiator = true) :
+    connect s = ((sendLogonInReplyTo (connPre s) (shouldSendReset (connPre s))).setSt .logon, "ok") := by
+  unfold connect connPre
+  have : s.openConn.cfg.initiator = true := h3
+  simp [h1, h2, this]
+
+/-- a successful connect: the marker, then (initiator) the Logon -/
+theorem SK_connect (g : G8) (s : Sess) (hlog : s.log = []) (hS : S g s) :
+    SK (if (connect s).2 == "ok" then c8Step g .connected else g) (connect s).1 := by
+  have hg0 : ∀ g', g8Of g' s = g' := by intro g'; unfold g8Of; rw [hlog]; rfl
+  have hSK : SK g s := by unfold SK; rw [hg0]; exact hS
+  cases hc : s.st.connected
+  · cases hst : s.st.sessionTime
+    · rw [connect_nottime s hc hst]
+      show SK g (if s.cfg.resetOnDisconnect = true then dropAndReset s else s)
+      split
+      · exact (pn_dropAndReset g s).st hSK
+      · exact hSK
+    · -- a connection starts
+      have hd : Down g s := W.toDown hS.1 hc
+      obtain ⟨d1, d2, d3, d4⟩ := hd
+      cases hini : s.cfg.initiator
+      · rw [connect_acceptor s hc hst hini]
+        show SK (c8Step g .connected) (s.openConn.setSt .logon)
+        unfold SK
+        have : g8Of (c8Step g .connected) (s.openConn.setSt .logon) = c8Step g .connected := by
+          unfold g8Of; show (List.foldl c8o _ s.log.reverse) = _; rw [hlog]; rfl
+        rw [this, c8Step_connected]
+        refine ⟨{ ok := (by simp [d1, d2, d3]), conn := rfl, cb := (by show g.cb = _; rw [d2]; rfl), hs := (fun h => by rw [d2] at h; cases h),
+                  notif := fun _ => rfl, fresh := fun _ _ => ⟨rfl, hini, rfl⟩,
+                  queue := (fun _ h => by
+                    rcases h with h | h
+                    · cases h
+                    · have : s.cfg.initiator = true := h.2
+                      rw [hini] at this; cases this),
+                  noconn := (fun h => by cases h) }, fun _ _ => rfl⟩
+      · rw [connect_initiator s hc hst hini]
+        generalize hx : connPre s = x
+        have hxs : Sil s.openConn x := by
+          rw [← hx]
+          unfold connPre
+          dsimp only
+          have h1 : Sil s.openConn (if s.openConn.cfg.refreshOnLogon = true then s.openConn.emit Obs.refresh else s.openConn) := by
+            split
+            · exact Sil.emit _ _ rfl
+            · exact Sil.refl _
+          generalize (if s.openConn.cfg.refreshOnLogon = true then s.openConn.emit Obs.refresh else s.openConn) = y at h1 ⊢
+          split
+          · exact h1.trans (sil_storeReset _)
+          · exact h1
+        have hxo : x.out = true := by rw [hxs.fr.out]; rfl
+        obtain ⟨m', hk, fr, hq, hgd⟩ := dropAndSend_logon_out (c8Step g .connected) x (logonMsg x (shouldSendReset x)) rfl hxo
+        show SK (c8Step g .connected) ((sendLogonInReplyTo x (shouldSendReset x)).setSt .logon)
+        unfold SK
+        rw [g8Of_setSt]
+        unfold sendLogonInReplyTo
+        rw [hgd, hxs.g8]
+        have : g8Of (c8Step g .connected) s.openConn = c8Step g .connected := by
+          unfold g8Of; show (List.foldl c8o _ s.log.reverse) = _; rw [hlog]; rfl
+        rw [this, c8o_wire, c8Step_connected]
+        have hk5 : (m'.kind == "5") = false := by rw [hk]; rfl
+        have hout : (dropAndSend x (logonMsg x (shouldSendReset x))).out = true := by rw [fr.out]; exact hxo
+        refine ⟨{ ok := (by simp [d1, d2, d3, hk, appFirst, isAdminKind]), conn := hout.symm, cb := (by show g.cb = _; rw [d2]; rfl),
+                  hs := (fun h => by have : g.cb = true := h; rw [d2] at this; cases this),
+                  notif := fun _ => rfl, fresh := (fun _ h => by cases h),
+                  queue := (fun _ _ => by show Q _ (dropAndSend x _).toSend; rw [hq]; exact Q_nil _),
+                  noconn := (fun h => by cases h) }, fun _ _ => ?_⟩
+        show (false || m'.kind == "5") = false
+        rw [hk5]; rfl
+  · rw [connect_already s hc]
+    exact hSK
+
 end Qfx.Sess
